@@ -271,6 +271,10 @@ def run(ctx, rep):
     rep.floor("C12.handler evaluations", T.evals, 25)
     or_never_elided(F, rep)
     unwrap_into_binds_like_store(F, rep)
+    # the decision tables above put a *value* on the operand stack; `xs[i]`, `o.f` and `m[k]` put a view there, which is never nil itself:
+    # the handlers have to copy the value out before they look at it (shared rule with C01 / C02)
+    from props import _viewread
+    _viewread.run(F, rep, "C12.view-read")
 
 
 def seqgen_show(seq):
